@@ -182,6 +182,21 @@ func (db *DB) FindInBatches(dest interface{}, batchSize int, fc func(tx *DB, bat
 		batch        int
 	)
 
+	// group the conditions when one of them is an OR alternative, so that the
+	// primary key cursor added for the next batch applies to all of them
+	if c, ok := tx.Statement.Clauses["WHERE"]; ok {
+		if where, ok := c.Expression.(clause.Where); ok && len(where.Exprs) > 1 {
+			for _, expr := range where.Exprs {
+				if orCond, ok := expr.(clause.OrConditions); ok && len(orCond.Exprs) == 1 {
+					where.Exprs = []clause.Expression{clause.And(where.Exprs...)}
+					c.Expression = where
+					tx.Statement.Clauses["WHERE"] = c
+					break
+				}
+			}
+		}
+	}
+
 	// user specified offset or limit
 	var totalSize int
 	if c, ok := tx.Statement.Clauses["LIMIT"]; ok {
